@@ -309,7 +309,7 @@ class KeywordSearches:
                 if ele is None:
                     continue
 
-                next_path = translated_path.append("[{}]".format(str(idx)))
+                next_path = translated_path + "[{}]".format(str(idx))
                 next_ancestry = ancestry + [(data, idx)]
                 for aoh_match in KeywordSearches._has_anchored_child(
                     ele, invert, parameters, yaml_path,
